@@ -15,7 +15,7 @@ JSON = b"application/json"
 def line(adapter, kind, status, ct, body, pad=0):
     if isinstance(body, str):
         body = body.encode("utf-8")
-    return "NETSAME %s %s %d %s %s %d" % (adapter, kind, status, C.topt(ct), C.tb(body), pad)
+    return "NETSAME %s %s %d %s %s %s" % (adapter, kind, status, C.topt(ct), C.tb(body), pad)
 
 
 def docs_for(kind, rng, n=3):
@@ -56,6 +56,13 @@ def cases(kinds, rng, statuses=(200, 400, 401, 500, 503), success_docs=3, with_e
                 # a repeated Content-Type header: the first value is the reply's (libcurl reports the last: ASSUMPTIONS of C09)
                 out.append((line(a, kind, 200, b"text/html\napplication/json", ok_docs[0]), "same/%s/%s" % (kind, a)))
                 out.append((line(a, kind, 200, b"application/json\ntext/html", ok_docs[0]), "same/%s/%s" % (kind, a)))
+            # circumstances that are no faults (bytes >= 0x80 in unrelated headers, a reason phrase with a colon), and faults (the
+            # reply cut short under Content-Length after part of the body, the connection closed before any reply): the in-memory
+            # client fails with a transport error of its own then, and so must the call through the adapter
+            for st, doc in ((200, ok_docs[0]), (400, (errs or [b"{\"error\":\"invalid_grant\"}"])[0])):
+                for flag in ("obs", "reason", "obs+reason", "truncated", "close_before"):
+                    i += 1
+                    out.append((line(a, kind, st, JSON, doc, pad="%d+%s" % (i % 2, flag)), "same-%s/%s/%s" % (flag, kind, a)))
             if with_large:
                 # replies beyond the sizes libraries and proxies cap things at (64 KiB, 1 MiB, 10 MiB): delivered whole
                 for st, doc in ((200, ok_docs[0]), (400, (errs or [b"{\"error\":\"invalid_grant\"}"])[0])):
@@ -78,6 +85,10 @@ def poll_cases(rng, adapters=ADAPTERS):
     for a in adapters:
         for k, (st, ct, body) in enumerate(replies):
             out.append((line(a, "devpoll", st, ct, body, pad=k % 2), "same/devpoll/%s" % a))
+        # every exchange of the session fails (reply cut short / no reply): the loop backs off and polls again until the deadline
+        for flag in ("truncated", "close_before", "obs", "reason"):
+            out.append((line(a, "devpoll", 200, JSON, tok, pad="0+" + flag), "same-%s/devpoll/%s" % (flag, a)))
+            out.append((line(a, "devpoll", 400, JSON, b"{\"error\":\"access_denied\"}", pad="1+" + flag), "same-%s/devpoll/%s" % (flag, a)))
     return out
 
 
